@@ -4,6 +4,7 @@ import (
 	"os"
 	"testing"
 
+	"pgregory.net/rapid"
 	"verif/harness/core"
 )
 
@@ -16,3 +17,9 @@ func TestMain(m *testing.M) {
 func TestC02(t *testing.T)       { core.Run(t, "C02", GenCase("C02"), Exec) }
 func TestC03(t *testing.T)       { core.Run(t, "C03", GenCase("C03"), Exec) }
 func TestC03Expiry(t *testing.T) { core.Run(t, "C03", GenExpiry, Exec) }
+
+// the same histories (lease, 2.1 s of wall-clock time, the same client again, restarts around it)
+// under C02's oracle: same address and the configured lease time however much time went by
+func TestC02Expiry(t *testing.T) {
+	core.Run(t, "C02", func(t *rapid.T) Case { c := GenExpiry(t); c.Mode = "C02"; return c }, Exec)
+}
